@@ -248,10 +248,12 @@ Better(prof, a, b) ==
 ConflictMust(limit, a, b) == OvSize(a, b) > limit
 ConflictMay(limit, a, b) == a.e - b.s >= limit /\ b.e - a.s >= limit
 
-NoOverlapClauses(prof, limit, H, out) ==
+NoOverlapClauses(prof, limit, hits, out) ==
     LET O == RangeOf(out)
+        H == RangeOf(hits)
     IN  (IF \E i \in 1..(Len(out) - 1) : out[i].s > out[i + 1].s THEN {"sorted_by_position"} ELSE {})
         \cup (IF ~(O \subseteq H) THEN {"outputs_are_inputs"} ELSE {})
+        \cup (IF \E h \in O : Count(out, h) > Count(hits, h) THEN {"no_hit_returned_twice"} ELSE {})
         \cup (IF \E i, j \in DOMAIN out : i < j /\ ConflictMust(limit, out[i], out[j])
               THEN {"no_overlap_beyond_limit"} ELSE {})
         \cup (IF \E h \in H \ O : ~\E o \in O : Better(prof, o, h) /\ ConflictMay(limit, o, h)
